@@ -4,7 +4,7 @@
    byte-based Go functions work on [utf8 s].  [fits t] (length below 2^62) holds of every Go slice. *)
 From Coq Require Import List NArith ZArith Bool.
 Import ListNotations.
-From GMS Require Import Sys.C34Funcs Sys.C34FuncsProofs Sys.C34InverseProofs.
+From GMS Require Import Sys.C34Funcs Sys.C34FuncsProofs Sys.C34InverseProofs Sys.C34More Sys.C34MoreProofs.
 Open Scope Z_scope.
 
 (* CHAR_LENGTH (and LENGTH) of a concatenation is the sum of the lengths *)
@@ -250,6 +250,136 @@ Theorem C34_locate_first_byte_occurrence : forall sub s : list N,
       forall j, 0 <= j < p - 1 -> is_prefix N.eqb bsub (drop j bs) = false)).
 Proof. exact locate_first_byte_occurrence. Qed.
 Print Assumptions C34_locate_first_byte_occurrence.
+
+(* ---------------- further functions (Sys/C34More.v) ---------------- *)
+(* TRIM(s) = RTRIM(LTRIM(s)) = LTRIM(RTRIM(s)); TRIM(LEADING ' ') = LTRIM; TRIM(TRAILING ' ') = RTRIM *)
+Theorem C34_trim_is_ltrim_rtrim : forall s,
+  trim_core 0 [32%N] s = rtrim_sp (ltrim_sp s) /\ trim_core 0 [32%N] s = ltrim_sp (rtrim_sp s) /\
+  trim_core 1 [32%N] s = ltrim_sp s /\ trim_core 2 [32%N] s = rtrim_sp s.
+Proof. exact trim_is_ltrim_rtrim. Qed.
+Print Assumptions C34_trim_is_ltrim_rtrim.
+
+(* TRIM(LEADING pat FROM s) removes a whole number of copies of pat and what is left does not start with pat *)
+Theorem C34_trim_leading_spec : forall pat s, pat <> [] ->
+  exists k, s = repeat_list pat k ++ trim_core 1 pat s /\ is_prefix N.eqb pat (trim_core 1 pat s) = false.
+Proof. exact trim_leading_spec. Qed.
+Print Assumptions C34_trim_leading_spec.
+
+Theorem C34_trim_null_propagation : forall dir (pat s : option (list N)), trim dir pat s = Null <-> pat = None \/ s = None.
+Proof. exact trim_null_propagation. Qed.
+Print Assumptions C34_trim_null_propagation.
+
+(* REPLACE(s,a,a) = s, REPLACE(s,'',b) = s, and the length law *)
+Theorem C34_replace_identity : forall s a b, replace_core s a a = s /\ replace_core s [] b = s.
+Proof. exact replace_identity. Qed.
+Print Assumptions C34_replace_identity.
+
+Theorem C34_replace_length_law : forall s a b, a <> [] ->
+  len (replace_core s a b) = len s + count_fuel (S (length s)) a s * (len b - len a).
+Proof. exact replace_length_law. Qed.
+Print Assumptions C34_replace_length_law.
+
+Theorem C34_replace_null_propagation : forall s a b : option (list N),
+  replace s a b = Null <-> s = None \/ a = None \/ b = None.
+Proof. exact replace_null_propagation. Qed.
+Print Assumptions C34_replace_null_propagation.
+
+(* LOWER is idempotent, LOWER(UPPER(s)) = LOWER(s), both keep CHAR_LENGTH (code points below 400) *)
+Theorem C34_lower_upper_laws : forall s : list N, Forall (fun c => (c < 400)%N) s ->
+  map lower2 (map lower2 s) = map lower2 s /\ map lower2 (map upper2 s) = map lower2 s /\
+  len (map lower2 s) = len s /\ len (map upper2 s) = len s.
+Proof. exact lower_upper_laws. Qed.
+Print Assumptions C34_lower_upper_laws.
+
+(* CONV(HEX(n),16,10) = n and CONV(BIN(n),2,10) = n for non-negative BIGINT n; HEX of a negative n is its 64-bit
+   two's complement; BIN of a negative n is not (refuted) *)
+Theorem C34_hex_bin_of_number : forall n, 0 <= n < 2 ^ 63 ->
+  conv (Some (hex_num n)) (Some 16) (Some 10) = Val (fmt_uint 10 n) /\
+  conv (Some (bin_num n)) (Some 2) (Some 10) = Val (fmt_uint 10 n).
+Proof. exact hex_bin_of_nonneg_number. Qed.
+Print Assumptions C34_hex_bin_of_number.
+
+Theorem C34_hex_of_negative_number : forall n, - 2 ^ 63 <= n < 0 ->
+  conv (Some (hex_num n)) (Some 16) (Some 10) = Val (fmt_uint 10 (n + 2 ^ 64)).
+Proof. exact hex_of_negative_number. Qed.
+Print Assumptions C34_hex_of_negative_number.
+
+Theorem C34_bin_of_negative_number_refuted : len (bin_num (-256)) = 57 /\ len (fmt_uint 2 (-256 + 2 ^ 64)) = 64.
+Proof. exact bin_negative_unpadded. Qed.
+Print Assumptions C34_bin_of_negative_number_refuted.
+
+(* ABS / SIGN / MOD *)
+Theorem C34_abs_sign_laws : forall n, - 2 ^ 63 < n < 2 ^ 63 ->
+  0 <= abs_int n /\ sign_num n * abs_int n = n /\ abs_int n = Z.abs n.
+Proof. exact abs_sign_laws. Qed.
+Print Assumptions C34_abs_sign_laws.
+
+Theorem C34_abs_nonnegative_refuted : abs_int (- 2 ^ 63) = - 2 ^ 63.
+Proof. exact abs_min_int64. Qed.
+Print Assumptions C34_abs_nonnegative_refuted.
+
+(* SIGN(0.471) = 0: a DECIMAL argument is rounded to BIGINT before its sign is taken *)
+Theorem C34_sign_of_fraction_refuted : sign_dec 471 3 = 0 /\ sign_dec (-283) 3 = 0 /\ sign_dec 5 1 = 1.
+Proof. exact sign_small_fraction. Qed.
+Print Assumptions C34_sign_of_fraction_refuted.
+
+Theorem C34_mod_law : forall a b, b <> 0 ->
+  exists r, mod_int a b = Some r /\ a = b * Z.quot a b + r /\ Z.abs r < Z.abs b /\ (r = 0 \/ Z.sgn r = Z.sgn a).
+Proof. exact mod_law. Qed.
+Print Assumptions C34_mod_law.
+
+(* ASCII(CHAR(n)) = n for one-byte n; CHAR skips NULL arguments *)
+Theorem C34_ascii_of_char : forall n, 0 <= n < 256 ->
+  char_fn [Some n] = [Z.to_N n] /\ (match char_fn [Some n] with b :: _ => Z.of_N b | [] => 0 end) = n.
+Proof. exact ascii_of_char. Qed.
+Print Assumptions C34_ascii_of_char.
+
+(* STRCMP is antisymmetric, reflexive, and zero only on equal strings *)
+Theorem C34_strcmp_antisymmetric : forall a b, strcmp_core a b = - strcmp_core b a.
+Proof. exact strcmp_antisym. Qed.
+Print Assumptions C34_strcmp_antisymmetric.
+
+Theorem C34_strcmp_zero_iff_equal : forall a b, strcmp_core a b = 0 <-> a = b.
+Proof. exact strcmp_zero_iff. Qed.
+Print Assumptions C34_strcmp_zero_iff_equal.
+
+(* ELT(FIELD(x, l), l) is an element of l equal to x up to letter case *)
+Theorem C34_elt_field : forall key vals, 0 < field_fn (Some key) vals ->
+  exists v, elt_fn (Some (field_fn (Some key) vals)) vals = Some v /\ fold_eq key v = true.
+Proof. exact elt_field. Qed.
+Print Assumptions C34_elt_field.
+
+Theorem C34_concat_ws : forall sep a b : list N,
+  concat_ws (Some sep) [Some a; Some b] = Val (a ++ sep ++ b) /\
+  concat_ws (Some sep) [Some a; None; Some b] = Val (a ++ sep ++ b) /\
+  concat_ws None [Some a; Some b] = Null.
+Proof. exact concat_ws_two. Qed.
+Print Assumptions C34_concat_ws.
+
+(* SUBSTRING_INDEX: the k leftmost fields, the delimiter and the remaining fields rebuild the string; a count beyond
+   the number of fields returns the whole string *)
+Theorem C34_substring_index_halves : forall s d k,
+  d <> [] -> 0 < k < len (split d s) -> len (split d s) < 2 ^ 62 ->
+  substring_index_core s d k ++ d ++ substring_index_core s d (- (len (split d s) - k)) = s.
+Proof. exact substring_index_halves. Qed.
+Print Assumptions C34_substring_index_halves.
+
+Theorem C34_substring_index_all : forall s d k, d <> [] -> len (split d s) <= k -> substring_index_core s d k = s.
+Proof. exact substring_index_all. Qed.
+Print Assumptions C34_substring_index_all.
+
+(* COMPRESS / UNCOMPRESS over a zlib oracle (deflate; the first Read of the inflating reader): under the oracle law
+   "a payload below the 32 KiB window arrives complete and with EOF in the first Read" and "a zlib stream is not
+   empty", UNCOMPRESS inverts COMPRESS and UNCOMPRESSED_LENGTH returns the length, for payloads below 32768 bytes.
+   (From 32768 bytes on the engine returns NULL: finding uncompress/payload-32k-or-more-returns-null.) *)
+Theorem C34_uncompress_compress :
+  forall (deflate : list N -> list N) (read1 : list N -> Z -> list N * bool),
+  (forall b, 0 < len b < 32768 -> read1 (deflate b) (len b) = (b, true)) ->
+  (forall b, deflate b <> []) ->
+  forall b, len b < 32768 ->
+    uncompress read1 (compress deflate b) = Some b /\ uncompressed_length (compress deflate b) = Some (len b).
+Proof. exact uncompress_compress. Qed.
+Print Assumptions C34_uncompress_compress.
 
 (* non-vacuity: concrete calls *)
 Example C34_nonvacuous :
